@@ -87,6 +87,14 @@ fn pick_name(rng: &mut Rng, e: &Engine, dir: usize, want_existing: u64) -> Strin
             return nm;
         }
     }
+    // names that used to exist here (deleted files): a new file under an old name takes the old slot
+    let gone: Vec<usize> = (0..e.m.nodes.len()).filter(|&c| !e.m.nodes[c].exists && e.m.nodes[c].kind == Kind::File && e.m.nodes[c].parent == Some(dir)).collect();
+    if !gone.is_empty() && rng.chance(1, 4) {
+        let nm = crate::fatref::display_name(&e.m.nodes[*rng.pick(&gone)].name);
+        if super::model::key_of(&nm).is_ok() {
+            return nm;
+        }
+    }
     match rng.below(12) {
         0 => rng.pick(BAD_NAMES).to_string(),
         1 | 2 => rng.pick(DIR_NAMES).to_string(),
